@@ -60,6 +60,18 @@ class NullKex:
         self.transport._activate_outbound()
 
 
+def make_counting_kex():
+    """null kex whose exchange hash changes with every exchange (H = 'H'*19 + counter)"""
+    state = {"n": 0}
+
+    class CountingKex(NullKex):
+        def parse_next(self, ptype, m):
+            state["n"] += 1
+            self.transport._set_K_H(12345, b"H" * 19 + bytes([state["n"]]))
+            self.transport._activate_outbound()
+    return CountingKex
+
+
 def make_packetizer_class(script, sent, raw):
     from paramiko.packet import Packetizer
     from paramiko.message import Message
